@@ -20,6 +20,7 @@ import Cicada.Spec.C12
 import Cicada.Spec.C19
 import Cicada.Spec.C13
 import Cicada.Model.FdDriver
+import Cicada.Spec.C20
 /-!
 `cicada_model` — runs the Lean model (the very definitions the theorems are about) and the
 reference semantics on the cases of the correspondence protocol.
@@ -366,6 +367,72 @@ def viewOut (v : List (Nat × List Nat × Bool)) : String :=
   let sorted := (v.toArray.qsort (fun a b => a.1 < b.1)).toList
   ",".intercalate (sorted.map fun (g, ps, st) => s!"{g}:{".".intercalate (ps.map toString)}:{if st then "Stopped" else "Running"}")
 
+/-! ### C20: directory trees on the wire: `hexpath:d|f` separated by `,` (paths relative, `/` inside) -/
+namespace C20D
+open Cicada.C20
+
+def parseEntries (s : String) : List (Str × Bool) :=
+  if s = "[]" ∨ s = "" then [] else
+  (s.splitOn ",").filterMap (fun e => match e.splitOn ":" with
+    | [p, k] => some (unhex p, k = "d")
+    | _ => none)
+
+/-- components of a directory text handed to `read_dir` (`.` and empty components dropped) -/
+def comps (d : Str) : List Str := (splitOnChar '/' d).filter (fun c => c ≠ [] ∧ c ≠ ['.'])
+
+/-- `read_dir` over the tree: the entries directly below the directory, `none` when it is not a directory of the tree -/
+def fsOf (tree : List (Str × Bool)) (d : Str) : Option (List (Str × Bool)) :=
+  let cs := comps d
+  if cs.any (· = ['.', '.']) ∨ d.head? = some '/' then none else
+  let key := joinWith ['/'] cs
+  if cs ≠ [] ∧ !(tree.any (fun e => e.1 = key ∧ e.2)) then none else
+  let pre := if cs = [] then [] else key ++ ['/']
+  some (tree.filterMap (fun e =>
+    if startsWith e.1 pre ∧ e.1.length > pre.length ∧ !((e.1.drop pre.length).contains '/') then some (e.1.drop pre.length, e.2) else none))
+
+def parseCtx : String → Ctx
+  | "s" => .sq | "d" => .dq | _ => .unq
+
+def complOut (c : Completion) : String :=
+  hex c.completion ++ "@" ++ (match c.display with | some d => hex d | none => "~") ++ "@" ++ (if c.dirSuffix then "/" else "d")
+
+/-- the line that stands at the prompt once a candidate has been chosen (quote closed by the user for directories) -/
+def lineFor (prog sep : Str) (c : Completion) : Str :=
+  prog ++ ' ' :: c.completion ++ (if c.dirSuffix then '/' :: closingQuote sep else [])
+
+def dirPartOf (p : Str) : Str := uptoLast '/' p
+def filePartOf (p : Str) : Str := afterLast '/' p
+
+/-- char-wise longest common prefix (`lineread::util::longest_common_prefix`, `None` read as "") -/
+def lcp2 : Str → Str → Str
+  | a :: as, b :: bs => if a = b then a :: lcp2 as bs else []
+  | _, _ => []
+def lcpAll : List Str → Str
+  | [] => []
+  | x :: xs => xs.foldl lcp2 x
+
+/-- which completer the dispatch of `CicadaCompleter::complete` reaches for the line: `some forDir` = the path
+completer; `none` = another completer may answer first (not modelled) -/
+def tabDispatch (line : Str) : Option Bool :=
+  let t := line.dropWhile (· = ' ')
+  if line.contains '|' ∨ line.contains '$' ∨ !t.contains ' ' then none
+  else if startsWith t "ssh".toList ∨ startsWith t "scp".toList ∨ startsWith t "make ".toList then none
+  else some (startsWith t "cd ".toList)
+
+/-- the line after TAB: the word under the cursor replaced by the single completion and its suffix, or by the
+longest common prefix of several; `none` = the word start is not a character boundary (the editor's slice panics) -/
+def afterTab (fs : Str → Option (List (Str × Bool))) (envVar : Str → Option Str) (line : Str) (forDir : Bool) : Outcome (Option Str) :=
+  let start := escapedWordStart line
+  match (List.range (line.length + 1)).find? (fun k => utf8Len (line.take k) = start) with
+  | none => .ok none
+  | some k =>
+    (completePath fs envVar (line.drop k) forDir).map (fun cs => match cs with
+      | [] => some line
+      | [c] => some (line.take k ++ c.completion ++ [if c.dirSuffix then '/' else ' '])
+      | _ => some (line.take k ++ lcpAll (cs.map (·.completion))))
+
+end C20D
+
 def answer (stream : String) (f : Array String) : Ans :=
   let g (i : Nat) : String := f.getD i "-"
   match stream with
@@ -377,6 +444,107 @@ def answer (stream : String) (f : Array String) : Ans :=
   | "wrap" => { m := hex (wrapSepString (unhex (g 0)) (unhex (g 1))) }
   | "unq" => { m := hex (unquote (unhex (g 0))) }
   | "arith" => { m := if isArithmetic (unhex (g 0)) then "1" else "0" }
+  | "escpath" => { m := hex (escapePath (unhex (g 0))) }
+  | "ews" => { m := toString (escapedWordStart (unhex (g 0))) }
+  | "tab" =>
+    -- env, tree, typed line before TAB, text typed after TAB; then Enter: accepted line (as history stores it) and recorded argv
+    let es := envIn (g 0)
+    let tree := C20D.parseEntries (g 1)
+    let line := unhex (g 2)
+    let after := unhex (g 3)
+    match C20D.tabDispatch line with
+    | none => { m := "UNMODELLED dispatch" }
+    | some forDir =>
+      match C20D.afterTab (C20D.fsOf tree) (fun k => lookup es.env.exported k) line forDir with
+      | .ok none => { m := "PANIC" }
+      | .ok (some l1) =>
+        let final := l1 ++ after
+        if !(parseLineInfo final).complete then { m := "INCOMPLETE|" ++ hex final } else
+        let recs : String := match lineToCmds final with
+          | [item] =>
+            if (parseLine item).any (fun t => t.2.contains '*' ∨ t.2.contains '`') then "UNMODELLED" else
+            (match planOf es.subst (planFuel item) item with
+             | .ok (.ok p) =>
+               let rs := (p.commands.filter (fun c => (c.tokens.head?.map (·.2)) = some "argv".toList)).map (fun c => hexList (c.tokens.map (·.2)))
+               if rs.isEmpty then "none" else ";".intercalate rs
+             | .ok (.error _) => "none"
+             | _ => "UNMODELLED")
+          | [] => "none"
+          | _ => "UNMODELLED"
+        if recs = "UNMODELLED" then { m := "UNMODELLED run" } else
+        let m := "L=" ++ hex (trim final) ++ "|A=" ++ recs
+        -- the entry the typed prefix singles out (path, kind), the context and the prefix: what the program must receive
+        if g 4 = "-" ∨ forDir then { m := m } else
+        let ctx := C20D.parseCtx (g 6)
+        let pre := unhex (g 7)
+        let path := unhex (g 4)
+        let isDir := g 5 = "d"
+        let cmdw := (line.dropWhile (· = ' ')).takeWhile (· ≠ ' ')
+        let cls := C20.classifyCase ctx pre [(path.drop (uptoLast '/' pre).length, isDir)]
+        { m := m, s := "A=" ++ hexList [cmdw, C20.received path isDir], guard := if cls = "-" then "1" else "0", cls := cls }
+      | .err k => { m := "UNMODELLED " ++ k }
+      | _ => { m := "PANIC" }
+  | "cmplneeds" =>
+    -- which patterns will `expand_glob` hand to the glob crate while the candidates' lines are planned
+    let es := envIn (g 0)
+    let tree := C20D.parseEntries (g 1)
+    let word := unhex (g 4)
+    let prog := unhex (g 6)
+    let sep : Str := match (parseLine word).getLast? with
+      | some t => t.1
+      | none => []
+    let pats : List Str := match completePath (C20D.fsOf tree) (fun k => lookup es.env.exported k) word (g 5 = "1") with
+      | .ok cs => cs.flatMap (fun c => match lineToCmds (C20D.lineFor prog sep c) with
+          | [item] =>
+            let t2 := expandEnv es.env (expandHome es.env (expandAlias es.env (parseLine item)))
+            (match expandBrace t2 with
+             | .ok t3 => (t3.filter (fun (sp, text) => sp = [] ∧ text.contains '*' ∧
+                 ¬ ((trim text).head? = some '\'' ∨ (trim text).head? = some '"'))).map (·.2)
+             | _ => [])
+          | _ => [])
+      | _ => []
+    { m := hexList pats }
+  | "cmpl" =>
+    -- env, tree, ctx, prefix, typed word, forDir, prog
+    let es := envIn (g 0)
+    let tree := C20D.parseEntries (g 1)
+    let ctx := C20D.parseCtx (g 2)
+    let pre := unhex (g 3)
+    let word := unhex (g 4)
+    let forDir := g 5 = "1"
+    let prog := unhex (g 6)
+    let fs := C20D.fsOf tree
+    let sep : Str := match (parseLine word).getLast? with
+      | some t => t.1
+      | none => []
+    let planS (line : Str) : String := outcomeStr planOut (C20.planLine es.subst (planFuel line) line)
+    let path : Str := match (parseLine word).getLast? with
+      | some t => t.2
+      | none => []
+    let absolute := (splitPathname (expandEnvString (fun k => lookup es.env.exported k) path)).1.head? = some '/'
+    let m : String := if absolute then "UNMODELLED absolute-directory" else
+      match completePath fs (fun k => lookup es.env.exported k) word forDir with
+      | .ok cs =>
+        -- entries with one and the same inserted text come in read_dir's order: canonical order among them, as the harness does
+        let keyed := cs.map (fun c => (String.ofList c.completion, C20D.complOut c ++ "@" ++ planS (C20D.lineFor prog sep c)))
+        let sorted := (keyed.toArray.qsort (fun a b => a.1 < b.1 || (a.1 == b.1 && a.2 < b.2))).toList
+        if cs.isEmpty then "[]" else "&".intercalate (sorted.map (·.2))
+      | .err k => if k.startsWith "unmodelled" then "UNMODELLED " ++ k else "ERR " ++ k
+      | .panic _ => "PANIC"
+      | .diverge _ => "HANG"
+    if C20.typedWord ctx pre ≠ word then { m := m, s := "RENDER-MISMATCH" } else
+    if !C20.prefixExpressible ctx pre then { m := m, guard := "0", cls := "outside-statement:prefix" } else
+    let dirPart := C20D.dirPartOf pre
+    let entries := (fs (if dirPart = [] then ['.'] else dirPart)).getD []
+    let cands := C20.candidates entries (C20D.filePartOf pre) forDir
+    let s : String := if cands.isEmpty then "[]" else
+      "&".intercalate (cands.map (fun e => obsOut (C20.expectedObs prog (dirPart ++ e.1) e.2)))
+    let pOk := C20.okPrefix ctx pre
+    let bad := cands.find? (fun e => !C20.okName ctx (C20.received (dirPart ++ e.1) e.2))
+    let progOk := C01.plainWord prog && (lookup es.env.aliases prog).isNone && prog ≠ "xargs".toList
+    let cls : String := if !progOk then "outside-statement:program-word" else C20.classifyCase ctx pre cands
+    { m := m, s := if cls.startsWith "outside-statement" then "-" else s,
+      guard := if progOk && pOk && bad.isNone then "1" else "0", cls := cls }
   | "redir" =>
     match tokensToRedirections (toksIn (g 0)) with
     | .ok (t, r) =>
